@@ -375,6 +375,8 @@ class NormTypeAlias(BaseNormType):
 
     @property
     def source(self) -> TypeHint:
+        if self._args:
+            return self._type_alias[tuple(arg.source for arg in self._args)]
         return self._type_alias
 
     @property
